@@ -443,6 +443,9 @@ def _mentions_recursive_spec(pc, goal):
 
 
 from pyvc import solve as _solve  # noqa: E402
+# C18's VCs are proved in well under a second each; on a changed tree dozens may be undecided, so the per-VC budget (z3, then the
+# retries above, then cvc5) is kept at 5 s instead of 10 s -- it only bounds how long an UNDECIDED answer takes
+_solve.QUICK_TIMEOUT_MS = min(_solve.QUICK_TIMEOUT_MS, 5000)
 if _mentions_recursive_spec.__name__ not in [getattr(f, "__name__", "") for f in _solve.SAT_UNTRUSTED]:
     _solve.SAT_UNTRUSTED.append(_mentions_recursive_spec)
 if _retry_prover.__name__ not in [getattr(f, "__name__", "") for f in _solve.EXTRA_PROVERS]:
@@ -2064,7 +2067,10 @@ def gen_result(term_fn):
 
 def part_c(reg):
     out = []
-    CL = p_client()
+    # the listing layer never reads the token itself (callee contracts' frames own it) and, where the site id is a
+    # parameter, not the cached site id either: one alternative instead of four keeps the VC count down
+    CL = p_client(token=p_unk(), site=p_unk())
+    CL_SITE = p_client(token=p_unk())
 
     # -- _build_children_url: URL construction is opaque (TRUSTED: exercised by the replayer's fake server) -------
     def curl(c):
@@ -2331,7 +2337,7 @@ def part_c(reg):
 
     out.append(FnContract(
         target=f"{CLIENT}::SharePointRestClient.list_files_filtered",
-        params=[("self", CL), ("file_filter", p_filter_abs()), ("drive_id", P_DRIVE)],
+        params=[("self", CL_SITE), ("file_filter", p_filter_abs()), ("drive_id", P_DRIVE)],
         generator=True,
         ensures=[("yields-exactly-the-matching-files:-per-target-folder-in-order,-or-of-the-whole-drive", body_only(lff_post)),
                  ("responses-closed", closed)],
@@ -2376,7 +2382,7 @@ def part_c(reg):
         opt_list = lambda nm: with_default(p_opt(p_seq_str(nm)), NONE)  # noqa
         return FnContract(
             target=f"{CLIENT}::SharePointRestClient.{meth}",
-            params=[("self", CL), ("since", p_dt()), ("folder_paths", opt_list(f"{meth}.folder_paths")),
+            params=[("self", CL_SITE), ("since", p_dt()), ("folder_paths", opt_list(f"{meth}.folder_paths")),
                     ("extensions", opt_list(f"{meth}.extensions")), ("drive_id", P_DRIVE)],
             generator=True,
             ensures=[(f"delegates-once-with-a-filter-that-has-only-{date_field}=since-and-the-given-folders-and-extensions", body_only(delegated)),
@@ -2414,7 +2420,7 @@ def part_c(reg):
 
     out.append(FnContract(
         target=f"{CLIENT}::SharePointRestClient.list_all_files",
-        params=[("self", CL), ("include_root_files", with_default(p_bool(), VBool(True)))],
+        params=[("self", CL_SITE), ("include_root_files", with_default(p_bool(), VBool(True)))],
         hyps=lambda c: z3.BoolVal(True),
         ensures=[("returns-exactly-the-walk-of-the-default-library:-every-file-once,-in-order,-with-its-parent-path", body_only(laf_post)),
                  ("responses-closed", closed)],
